@@ -150,6 +150,9 @@ func (g *Global) valueLeaks(v ssa.Value, seen map[ssa.Value]bool, depth int) boo
 				}
 			}
 		case *ssa.MakeClosure:
+			if leakIgnoreClosure != nil && leakIgnoreClosure(r) {
+				continue // flow-sensitive query: this closure is made only after the call in question
+			}
 			// captured: the closure value must not leak, and the closure body must not leak
 			// the corresponding free variable
 			if g.valueLeaks(r, seen, depth+1) {
@@ -246,7 +249,10 @@ func (ex *Exec) preserveLocals(fr *Frame, pc Term, old, cur State, keys map[stri
 		sort.Slice(als, func(i, j int) bool { return allocOrder(als[i]) < allocOrder(als[j]) })
 		for _, al := range als {
 			a := addrs[al]
-			if leaked[al] || passed[al] || a.Local != nil || a.Ref.S == "" {
+			if leaked[al] && f == fr && c != nil && !passed[al] && a.Local == nil && a.Ref.S != "" && ex.g.leaksOnlyLater(al, fr.fn, c) {
+				// the allocation leaks only through function literals that are made after this
+				// call on every path: the callee cannot have its address yet
+			} else if leaked[al] || passed[al] || a.Local != nil || a.Ref.S == "" {
 				continue
 			}
 			el := al.Type().Underlying().(*types.Pointer).Elem()
@@ -488,4 +494,64 @@ func (ex *Exec) preservePrivateFreeVars(fr *Frame, old, cur State, keys map[stri
 			ex.vc.assume(tTrue, eq(sel(nv, addr, lf.so), sel(ov, addr, lf.so)), "callee cannot reach captured variable "+fv.Name())
 		}
 	}
+}
+
+
+// ---- flow-sensitive refinement: leaks through closures that do not exist yet ----
+
+var leakIgnoreClosure func(*ssa.MakeClosure) bool
+
+// leaksOnlyLater: al leaks, but only through MakeClosure instructions of fn that cannot have
+// been executed when the call c is made (no path from the MakeClosure to the call).
+func (g *Global) leaksOnlyLater(al *ssa.Alloc, fn *ssa.Function, c *ssa.CallCommon) bool {
+	var call ssa.Instruction
+	for _, b := range fn.Blocks {
+		for _, in := range b.Instrs {
+			if ci, ok := in.(ssa.CallInstruction); ok && ci.Common() == c {
+				call = in
+			}
+		}
+	}
+	if call == nil || al.Parent() != fn {
+		return false
+	}
+	idx := func(in ssa.Instruction) int {
+		for i, x := range in.Block().Instrs {
+			if x == in {
+				return i
+			}
+		}
+		return -1
+	}
+	reach := map[*ssa.BasicBlock]map[*ssa.BasicBlock]bool{}
+	reaches := func(a, b *ssa.BasicBlock) bool { // b reachable from a by one or more edges
+		m, ok := reach[a]
+		if !ok {
+			m = map[*ssa.BasicBlock]bool{}
+			var walk func(x *ssa.BasicBlock)
+			walk = func(x *ssa.BasicBlock) {
+				for _, s := range x.Succs {
+					if !m[s] {
+						m[s] = true
+						walk(s)
+					}
+				}
+			}
+			walk(a)
+			reach[a] = m
+		}
+		return m[b]
+	}
+	before := func(mc *ssa.MakeClosure) bool { // may mc have run when call runs?
+		if mc.Parent() != fn {
+			return true
+		}
+		if reaches(mc.Block(), call.Block()) {
+			return true
+		}
+		return mc.Block() == call.Block() && idx(mc) < idx(call)
+	}
+	leakIgnoreClosure = func(mc *ssa.MakeClosure) bool { return !before(mc) }
+	defer func() { leakIgnoreClosure = nil }()
+	return !g.valueLeaks(al, map[ssa.Value]bool{}, 0)
 }
